@@ -36,7 +36,7 @@ func init() {
 		"Decides: the flag set is closed (12 single bits; only | & &^ ^ on Condition values, so no 13th bit for any input); Inexact⇒Rounded, Overflow⇒Inexact and the Underflow guard hold by construction at every raise site; no Condition produced by a callee is dropped or clobbered outside a reasoned table; the division conditions sit under exactly their specification guards; a non-zero division remainder always raises Inexact.",
 		[]string{"\"Inexact iff the result differs from the exact one\" beyond the remainder rule; over-reporting of Rounded"})
 	prop("C03", "Traps turn raised conditions into errors and never change or hide results",
-		[]string{"C03.R1", "C03.R2", "C03.R3", "C03.R4", "C03.R5", "C03.R6", "C03.R7", "C04.R4"},
+		[]string{"C03.R1", "C03.R2", "C03.R3", "C03.R4", "C03.R5", "C03.R6", "C03.R7", "C03.R8", "C04.R4"},
 		"Decides the error plumbing on all paths: GoError returns an error iff a system or trapped bit is set (path enumeration); every ErrDecimal wrapper performs exactly the same-named Context call behind the sticky-error guard and accumulates flags; every return of the single-rounding operations passes the trap filter with the flags it returns; errors are never compared with each other; composite functions test ed.Err() before every result-delivering return and destination write; wrapper-driven loops terminate under any trap set.",
 		[]string{"equality of composite-function results across trap sets when no error is returned (depends on which internal conditions arise)"})
 	prop("C04", "Operations are total: no panic and no hang on any well-formed input",
@@ -44,12 +44,12 @@ func init() {
 		"Decides: the reachable explicit panics are the three tabled, unreachable ones (with exhaustive switch companions); no possibly-nil pointer reaches a dereferencing parameter; every big-integer divisor is a power of ten, a non-zero constant or behind the operand's IsZero test, and table indices are guarded; every API-reachable loop is counted, error-checked on each cycle, or tabled with its variant; the parser rejects signs inside the digit string, keeps a NaN form on error and range-checks finite results.",
 		[]string{"implicit run-time panics that depend on values beyond the listed index/divisor/nil obligations (inside math/big), memory exhaustion, slow-but-finite operations at the ±100000 limits"})
 	prop("C05", "Any argument may alias the destination or another argument",
-		[]string{"C05.R1", "C05.R2", "C05.R3", "C05.R4", "C06.R8"},
+		[]string{"C05.R1", "C05.R2", "C05.R3", "C05.R4", "C06.R8", "C06.R10"},
 		"Decides the structural cause of alias-safety for every function with a destination role and a same-typed operand role: assuming they are the same object, no path reads an operand field after a non-copy write of that field through the destination (flow- and field-sensitive over SSA, bottom-up callee summaries, the repo's p==q / p!=nil guards prune paths); BigInt wrappers use distinct inner temporaries and the innerOrAlias helpers exactly where math/big compares pointers.",
 		[]string{"alias behaviour inside math/big (trusted)"},
 		"math/big methods are alias-safe when they can see the aliasing (same *big.Int or same backing array)", "hand summaries of (*BigInt).inner* / noescape; updateInner(src) copies src")
 	prop("C06", "Results depend only on operands and context; inputs are never modified",
-		[]string{"C06.R1", "C06.R2", "C06.R3", "C06.R4", "C06.R5", "C06.R6", "C06.R7", "C06.R8", "C06.R9"},
+		[]string{"C06.R1", "C06.R2", "C06.R3", "C06.R4", "C06.R5", "C06.R6", "C06.R7", "C06.R8", "C06.R9", "C06.R10"},
 		"Decides for all inputs and histories: destinations of exported operations are write-only until assigned and completely assigned (Form, Negative, Exponent, Coeff) on every result-delivering return; the mod-set through every operand-role parameter and through the Context is empty; pointers into package-level tables and constants never reach a written position outside initialisation; every package-level variable is init-only.",
 		[]string{"nothing numeric is needed for this property"},
 		"a Condition carrying a System* flag always becomes an error (C03.R1/R3), so such returns need not deliver a complete value", "math/big mod/ref table", "hand summaries of the unsafe helpers")
@@ -58,19 +58,19 @@ func init() {
 		"Decides: in every rounding operation the value delivered by each return has passed a setExponent range check after its last coefficient/exponent write (or is a whole-value copy, a small constant, or a tabled exception with its invariant); rounding increments are renormalised through roundAddOne; signed inputs to coefficients are sign-normalised; Context.Reduce strips after rounding.",
 		[]string{"that Rounder.Round removes exactly NumDigits−Precision digits (digit arithmetic)"})
 	prop("C08", "Special values follow the decimal arithmetic rules in every operation",
-		[]string{"C08.R1", "C08.R2", "C08.R3", "C08.R4", "C08.R5", "C08.R6", "C08.R7", "C08.R8"},
+		[]string{"C08.R1", "C08.R2", "C08.R3", "C08.R4", "C08.R5", "C08.R6", "C08.R7", "C08.R8", "C08.R9"},
 		"Decides: every exported Context operation tests all its operands for NaN first and returns setAsNaN with the same operands; setAsNaN's selection order and signaling behaviour (path enumeration); NaN results and invalid-class flags are paired both ways, DivisionByZero with infinity; copied unsigned specials/zeros get their sign from the operands; the exact-zero sum sign is c.Rounding == RoundFloor.",
 		[]string{"the complete result table for finite × special operand combinations beyond these pairings"})
 	prop("C09", "Quantize and RoundToIntegral produce the requested exponent, correctly rounded",
-		[]string{"C09.R1", "C09.R2", "C09.R3", "C09.R4", "C09.R5", "C09.R6", "C09.R7", "C20.R2", "C01.R5", "C04.R6"},
+		[]string{"C09.R1", "C09.R2", "C09.R3", "C09.R4", "C09.R5", "C09.R6", "C09.R7", "C09.R8", "C20.R2", "C01.R5", "C04.R6"},
 		"Decides: every digit-dropping path in quantize consults the rounding mode; the last exponent store before every non-system return of quantize is the requested exponent; Quantize yields NaN under each of its five guards; RoundToIntegralValue masks exactly Inexact|Rounded and Exact nothing, both quantize to exponent 0 behind the specials prologue; Ceil/Floor adjust by one only under the strict sign test of the fraction.",
 		[]string{"correctness of the rescaled coefficient and the 0.9→1.0 fix-up arithmetic"})
 	prop("C10", "Integer division and remainder satisfy the division identity",
-		[]string{"C10.R1", "C10.R2", "C01.R3", "C04.R3", "C10.R3"},
+		[]string{"C10.R1", "C10.R2", "C01.R3", "C04.R3", "C10.R3", "C08.R9"},
 		"Decides sibling agreement of QuoInteger and Rem: both align with upscale and propagate its error, divide exactly once with truncating Quo/QuoRem on the aligned coefficients in order, test DivisionImpossible on that very quotient's digit count; QuoInteger's sign is x≠y and its exponent 0, Rem's sign is x's; Rem rounds once; the divisor is behind y's IsZero test.",
 		[]string{"the identity x = q·y + r itself (math/big arithmetic and alignment arithmetic)"})
 	prop("C11", "Sqrt is correctly rounded; Cbrt is within one unit and exact on perfect cubes",
-		[]string{"C11.R1", "C11.R2", "C04.R4", "C03.R5", "C12.R5"},
+		[]string{"C11.R1", "C11.R2", "C11.R3", "C04.R4", "C03.R5", "C12.R5"},
 		"Decides only structure: Sqrt's final rounding runs with Precision = c.Precision and Rounding = half-even on a working context of larger precision; Cbrt returns zero flags only under operand == d³; both take specials from rootSpecials; their loops are bounded and their wrapper errors surfaced.",
 		[]string{"correct rounding of Sqrt and the 1-ulp bound of Cbrt: real-analysis error bounds of Newton iterations with tuned guard digits — no sound static argument in reach"})
 	prop("C12", "Exp, Ln, Log10 and Pow are accurate to one unit in the last place",
@@ -78,11 +78,11 @@ func init() {
 		"Decides: every digit of the ln 10 and 1/ln 10 literals (≈2200 each; the suite uses ≤ 50) equals an independent big-integer computation; the precision table doubles from 1 and is fetched at the working precision; the exact-by-definition shortcuts (exp 0, ln 1, x**0, integer exponents) exist with zero flags; overflow/underflow reports are confined to their guards.",
 		[]string{"one-ulp accuracy: series truncation and guard-digit sufficiency are statements about real numbers"})
 	prop("C13", "Text and binary encodings round-trip every Decimal exactly",
-		[]string{"C13.R1", "C13.R2", "C13.R3", "C13.R4", "C06.R2"},
+		[]string{"C13.R1", "C13.R2", "C13.R3", "C13.R4", "C13.R5", "C06.R2"},
 		"Decides writer/reader table agreement: special-name, sign and exponent-marker tokens written by the formatter are the ones the parser accepts and map back to the same Form; Compose and Decompose agree on the form byte and Compose assigns the whole value; the float path uses shortest 64-bit formatting and the package parser; all text producers share one formatter.",
 		[]string{"digit/point placement round-trip for every exponent (string arithmetic in fmtE/fmtF vs the parser)"})
 	prop("C14", "String is the GDA scientific string; parsing accepts exactly its grammar",
-		[]string{"C04.R5", "C14.R2", "C14.R3", "C14.R4", "C14.R5", "C14.R6", "C14.R7", "C14.R8", "C14.R9", "C14.R10", "C13.R1", "C07.R5"},
+		[]string{"C04.R5", "C14.R2", "C14.R3", "C14.R4", "C14.R5", "C14.R6", "C14.R7", "C14.R8", "C14.R9", "C14.R10", "C14.R11", "C13.R1", "C13.R5", "C07.R5"},
 		"Decides: the digit string is sign-free when it reaches BigInt.SetString; special names are alternatives; payload and exponent are validated by strconv with error edges returning errors (base 10, 32 bit); every text entry point goes through the one parser; parse errors return no partial value; plain notation is chosen exactly under exponent ≤ 0 ∧ adjusted ≥ −6 with the documented zero exception; fmtE prints the adjusted exponent.",
 		[]string{"full language equality with the GDA grammar (acceptance of digit strings is delegated to strconv/math/big)", "Format's flag/width layout beyond the padding width and the sign-before-zeros order"})
 	prop("C15", "Cmp is the exact numeric order and CmpTotal is the documented total order",
